@@ -13,7 +13,7 @@ META = {
                    "op-for-op against the real librime on synthetic schemas (same C++ context/engine/processor code) and every "
                    "observation of the implementation is also checked against WellFormed directly."),
     "level_note": ("Trusted: Lean kernel; keymap translator; the hand-written model is tied by differential runs only (bounded by the "
-                   "generator). UTF-8 boundary clause is monitored on the implementation, not proved. Processors outside the model "
+                   "generator). UTF-8 boundary clause: proved for every composition under ASCII input and character-starting candidate texts (C02.preedit_utf8_boundaries), and monitored on the implementation. Processors outside the model "
                    "(ascii_composer, recognizer, key_binder, punctuator, chord_composer) and AutoSelectPreviousMatch are covered only "
                    "by the context-layer lemmas plus monitors on stock schemas (thorough tier)."),
     "design_ref": "DESIGN.md §2 M-session, §3 C02",
